@@ -120,7 +120,7 @@ def run(ctx, rep):
                 f = s[1][2]
                 if isinstance(f, list) and f[0] == "f" and (f[4] or "").endswith("configfile::ConfigFile"):
                     stores.append((bi, f[2], s))
-    rep.floor("C18.b", "stores into the configuration", len(stores), 14)
+    rep.floor("C18.b", "stores into the configuration", len(stores), 10)
     cfields = [f[0] for f in prog.adt("repofile::configfile::ConfigFile")["variants"][0]["fields"]]
     ofields = [f[0] for f in prog.adt("commands::config::ConfigOptions")["variants"][0]["fields"]]
     for (bi, fname, s) in stores:
